@@ -680,7 +680,23 @@ Definition upd_ack (m : inmsg) (a : list str) : list str :=
    [tried] stays false).  The nick state lives
    outside [st]: no other handler reads it; Irc.reset() re-initialises it and a
    successful do376 reloads the alternates. *)
-Record nk := Nk { alts : nat; tried : bool }.     (* len(alternateNicks); the configured nick is in triedNicks *)
+(* len(alternateNicks); the configured nick is in triedNicks; irc.nick is no longer the configured nick (Irc.feedMsg
+   overwrites irc.nick with the first argument of the numerics in _nickSetters BEFORE the handler runs) *)
+Record nk := Nk { alts : nat; tried : bool; renamed : bool;
+                  cur_alt : option nat }.      (* irc.nick is the k-th of the alternates that are left (they are distinct) *)
+Definition is_setter (m : inmsg) : bool :=
+  match m with INum code (_ :: _) => mem code gen.T08.NICK_SETTERS | _ => false end.
+(* on the wire the first argument of a numeric is canonicalised: "1" = the configured nick; "a", "b", ... = the 1st, 2nd, ...
+   of the alternates that are left; anything else = another nick *)
+Definition nick_setter (m : inmsg) (n : nk) : nk :=
+  match m with
+  | INum code (a :: _) =>
+      if mem code gen.T08.NICK_SETTERS then
+        Nk (alts n) (tried n) (negb (seq_eqb a [49]))
+           (match a with [ch] => if (97 <=? ch) && (ch <=? 122) then Some (N.to_nat (ch - 97)) else None | _ => None end)
+      else n
+  | _ => n
+  end.
 Definition is43x (m : inmsg) : bool :=
   match m with INum code _ => N.eqb code 432 || N.eqb code 433 || N.eqb code 437 | _ => false end.
 Definition is376 (m : inmsg) : bool :=
@@ -690,22 +706,30 @@ Definition is_abort (o : outev) : bool := match o with Reconnect _ _ => true | D
 (* (new nick state, a new nick was found) *)
 Definition next_nick (n : nk) : nk * bool :=
   match alts n with
-  | S a => (Nk a (tried n), true)
-  | O => (n, true)
+  | S a =>                                   (* the next alternate is popped; if it is the current nick the assert of do43x fires *)
+      match cur_alt n with
+      | Some O => (Nk a (tried n) (renamed n) None, false)
+      | Some (S k) => (Nk a (tried n) (renamed n) (Some k), true)
+      | None => (Nk a (tried n) (renamed n) None, true)
+      end
+  | O => if renamed n && negb (tried n) then (Nk 0 true (renamed n) (cur_alt n), true)    (* the configured nick itself: it is not the current one *)
+         else (n, true)                                                                   (* a random variant *)
   end.
 (* na = the number of configured alternates *)
 Definition stepN (c : cfg) (na : nat) (sn : st * nk) (m : inmsg) : (st * nk) * list outev * option exn :=
-  let '(s, n) := sn in
+  let '(s, n0) := sn in
+  let n := nick_setter m n0 in
+  let drop (x : nk) := Nk (alts x) (tried x) (renamed x) None in    (* once connected do43x no longer looks at the nicks *)
   if is43x m then
-    if after s then ((s, n), [], None)
+    if after s then ((s, drop n), [], None)
     else let '(n', ok) := next_nick n in
          if ok then ((s, n'), [Send s_NICK []], None) else ((s, n'), [], Some AssertionError)
   else
     let '(s', o, e) := step c s m in
-    let n' := if existsb is_abort o || is_reset_msg m then Nk na false
-              else if is376 m && after s' && match e with None => true | Some _ => false end then Nk na (tried n)
+    let n' := if existsb is_abort o || is_reset_msg m then Nk na false false None
+              else if is376 m && after s' && match e with None => true | Some _ => false end then Nk na (tried n) (renamed n) None
               else n in
-    ((s', n'), o, e).
+    ((s', if after s' then drop n' else n'), o, e).
 Fixpoint run_msgsN (c : cfg) (na : nat) (sn : st * nk) (ms : list inmsg) : (st * nk) * list outev :=
   match ms with
   | [] => (sn, [])
@@ -869,8 +893,8 @@ Definition run (v : value) : value :=
   | 0 => let cv := nth_v 0 p in let sv := nth_v 1 p in
          let q0 := Qst 0 (map (fun x => (0%nat, gOut x)) (gL (nth_v 13 sv))) in
          let '(s', n', q', o, e) := stepQ (gCfg cv) (N.to_nat (gN (nth_v 11 cv)))
-                                          (gState sv, Nk (N.to_nat (gN (nth_v 11 sv))) (gB (nth_v 12 sv)), q0) (gMsg (nth_v 2 p)) in
-         L [L (gL (vState s') ++ [vN (N.of_nat (alts n')); vB (tried n'); L (map (fun x => vOut (snd x)) (q_items q'))]);
+                                          (gState sv, Nk (N.to_nat (gN (nth_v 11 sv))) (gB (nth_v 12 sv)) (gB (nth_v 14 sv)) (gO (fun x => N.to_nat (gN x)) (nth_v 15 sv)), q0) (gMsg (nth_v 2 p)) in
+         L [L (gL (vState s') ++ [vN (N.of_nat (alts n')); vB (tried n'); L (map (fun x => vOut (snd x)) (q_items q')); vB (renamed n'); vO (fun k => vN (N.of_nat k)) (cur_alt n')]);
             L (map vOut (filter visible o)); vExn e]
   | 7 => L (map vMsg (strategyN (gSrv (nth_v 0 p)) (map (fun x => N.to_nat (gN x)) (gL (nth_v 1 p))) (N.to_nat (gN (nth_v 2 p)))
                                 (map gN (gL (nth_v 3 p))) (map (fun b => map gOut (gL b)) (gL (nth_v 4 p)))))
